@@ -750,7 +750,7 @@ def corpus_checks(ctx, tier):
     from vlib.evm import Chain
 
     rnd = ctx.rng("corpus")
-    ncontracts = 3 if tier == "quick" else 12
+    ncontracts = 2 if tier == "quick" else 12
     cfgs = [c for c in configs.configs(tier) if c.venom]
     if tier != "quick":
         cfgs = cfgs[::6]
@@ -913,7 +913,7 @@ def pass_corpus_checks(ctx, tier, stats, fails):
     cfgs += [configs.Config(True, "O3", "cancun", flags=[f]) for f in configs.USABLE_FLAGS[::2]]
     pairs = [(e, c) for e in PC.CORPUS for c in cfgs]
     if tier == "quick":
-        pairs = rnd.sample(pairs, 8)
+        pairs = rnd.sample(pairs, 6)
     st = {"compiles": 0, "join_blocks": 0, "instructions_validated": 0, "programs": len({e["name"] for e, _ in pairs})}
     for e, cfg in pairs:
         src = e["src"]
